@@ -293,9 +293,14 @@ Section Rec.
         then fail EOther
         else if dl <? 2 then ret (VVariant mask alen dl ds (Some (VSlice vals)))
         else match vals with
-             | Some l => tick (24 * Z.to_N alen * Z.to_N dl) ;;;
+             | Some l => (* split: one slice header per element and level; reflect.SliceOf builds one new slice type
+                            per level whose name grows with the level (measured: about 2.6 * dl^2 bytes) *)
+                         tick (24 * Z.to_N alen * Z.to_N dl + 3 * Z.to_N dl * Z.to_N dl) ;;;
                          ret (VVariant mask alen dl ds (Some (split (map Z.to_nat ds) l)))
-             | None => panic   (* unreachable: product >= 1 <> -1 *)
+             | None =>
+               (* unreachable: every dimension is >= 1, so the product is >= 1 and cannot equal alen = -1.
+                  (Go's split on an empty slice does not panic either: it builds dims[0] x ... empty slices.) *)
+               ret (VVariant mask alen dl ds (Some (split (map Z.to_nat ds) [])))
              end.
 
   Definition dec_datavalue : dec val :=
